@@ -143,6 +143,17 @@ def compile_many(tus, compiler="g++", std="c++20", extra_flags=(), jobs=16):
 def judge(chk, rule, tu, results, unattributed, fail_floor=None):
     """Feed the per-obligation outcome of one TU into the Check object."""
     n_ok = 0
+    whole = getattr(tu, "whole", None)
+    if whole:
+        # a must-compile witness whose errors the compiler reports without a back-trace into this file (an inherited
+        # constructor ends the trace inside the library): the TU holds this one obligation and any error is its failure
+        errs = [e for v in results.values() for e in v] + [str(u) for u in unattributed]
+        chk.obligation(rule, whole["label"], not errs, nontrivial=True)
+        if errs:
+            chk.violation(rule, whole["label"], "hard-error", "%s: %s" % (whole["code"], errs[0][:300]),
+                          {"obligation": whole["code"], "errors": errs[:5], "tu": tu.name})
+            return 0
+        return 1
     for line, ob in sorted(tu.obl.items()):
         errs = results.get(line, [])
         if ob["kind"] == "assert":
